@@ -82,13 +82,15 @@ PosValid(c, z, v, pr) == ProofFits(pr, c, z) /\ ValueIs(v, c, z)
 Lens(s) == <<Len(s.comms), Len(s.points), Len(s.vals), Len(s.proofs)>>
 EqualLens(s) == \A i, j \in 1..4 : Lens(s)[i] = Lens(s)[j]
 \* the code: zip of the four lists (shortest wins); with the guard a length mismatch is an error
+\* positions whose witness was shifted by the compensation plan
+Shifted(s, i) == "comp" \in DOMAIN s /\ i \in {s.comp[1], s.comp[2]}
 KzgBatch(s) ==
   LET n == MinSeq(Lens(s)) IN
   IF KzgBatchGuardsLengths /\ ~EqualLens(s) THEN "err"
-  ELSE IF \A i \in 1..n : PosValid(s.comms[i], s.points[i], s.vals[i], s.proofs[i]) THEN "accept" ELSE "reject"
+  ELSE IF \A i \in 1..n : PosValid(s.comms[i], s.points[i], s.vals[i], s.proofs[i]) /\ ~Shifted(s, i) THEN "accept" ELSE "reject"
 KzgSingles(s) ==
   LET n == MinSeq(Lens(s)) IN
-  [i \in 1..n |-> IF PosValid(s.comms[i], s.points[i], s.vals[i], s.proofs[i]) THEN "accept" ELSE "reject"]
+  [i \in 1..n |-> IF PosValid(s.comms[i], s.points[i], s.vals[i], s.proofs[i]) /\ ~Shifted(s, i) THEN "accept" ELSE "reject"]
 \* what the verifier is shown: position i claims  value_i = polynomial(comms_i)(points_i);
 \* a position without all four parts is not a claim the property lets the verifier accept
 KzgClaimsTrue(s) == EqualLens(s) /\ \A i \in DOMAIN s.comms : ValueIs(s.vals[i], s.comms[i], s.points[i])
@@ -185,6 +187,10 @@ KzgPlans(s) ==
   \cup {P("value_mut_" \o m, "not_accept", [s EXCEPT !.proofs[i].mut = m, !.vals[i].d = 1]) : <<i, m>> \in {t \in (1..n) \X {"w_rand", "rv_plus", "rv_drop", "rv_add"} :
                            t[2] = "w_rand" \/ (Hidden(s.proofs[t[1]].p) <=> t[2] \in {"rv_plus", "rv_drop"})}}
   \cup {P("value_proof_other_poly", "not_accept", [s EXCEPT !.proofs[i].p = q, !.vals[i].d = 1]) : <<i, q>> \in {t \in (1..n) \X (1..NPolys) : t[2] # s.proofs[t[1]].p}}
+  \* cross-proof compensation under the hypothesis that the batching randomizers are all 1: a false value at
+  \* position i, the witnesses of positions i and j (different points) shifted by +e g and -e g, e = delta/(z_i - z_j)
+  \cup {P("compensate_unit", "not_accept", [s EXCEPT !.vals[i].d = 1] @@ [comp |-> <<i, j>>]) :
+          <<i, j>> \in {t \in (1..n) \X (1..n) : t[1] # t[2] /\ s.points[t[1]] # s.points[t[2]]}}
   \* list surgery: one list shortened / extended
   \cup {P("short_proofs", "not_accept", [s EXCEPT !.proofs = DropLast(s.proofs)])}
   \cup {P("short_proofs_false_last", "not_accept", [s EXCEPT !.proofs = DropLast(s.proofs), !.vals[n].d = 1])}
